@@ -5,7 +5,8 @@ import BctVerif.Model.AliasIR
 Meta-theorem about the alias/write IR of `Model/AliasIR.lean`, proved once: the may-alias analysis is sound for
 the heap semantics, including inlined calls (arbitrary depth, recursion) and loops.
 
-* `sound`        `analyze tbl fuel s T = some T'`, every caller-owned location reachable at entry is reachable only
+* `sound`        (for executions that complete **and** for executions left by an exception at any point)
+                 `analyze tbl fuel s T = some T'`, every caller-owned location reachable at entry is reachable only
                  through a name in `T` (a bit mask)  ⇒  no execution of `s` writes a caller-owned location, and `T'` has the same
                  property at exit;
 * `safe_sound`   the per-function obligation `safe tbl fuel f = true` (closed by `decide` in `Gen/EffectsAlias.lean`,
@@ -174,38 +175,43 @@ theorem clean0 {C env x} {P : Loc → Prop} (hi : TInv C env 0) (hP : ∀ l, P l
   · simp only [hyx, if_true] at hy; exact absurd hc (hP l hy)
   · simp only [hyx, if_false] at hy; exact hi y l hy hc
 
-theorem exec_clean (C : Loc → Prop) (tbl : Table) : ∀ (s : Stmt) (e e' : Env) (w : Loc → Prop),
-    Exec C tbl s e e' w → TInv C e 0 → (∀ l, w l → ¬ C l) ∧ TInv C e' 0 := by
-  intro s e e' w h
+theorem afterUnknown_clean {C env ys} (hi : TInv C env 0) : TInv C (env.afterUnknown ys) 0 := by
+  intro y l hy hc
+  rcases hy with hy | ⟨_, z, _, hz⟩
+  · exact hi y l hy hc
+  · exact (TInv_zero_elim hi hz hc).elim
+
+theorem afterCall_clean {C env envc' ps as} (hi : TInv C env 0) (hc' : TInv C envc' 0) :
+    TInv C (env.afterCall envc' ps as) 0 := by
+  intro y l hy hc
+  rcases hy with hy | ⟨p, _, _, _, hp⟩
+  · exact hi y l hy hc
+  · exact (TInv_zero_elim hc' hp hc).elim
+
+theorem exec_clean (C : Loc → Prop) (tbl : Table) : ∀ (s : Stmt) (e e' : Env) (w : Loc → Prop) (fin : Bool),
+    Exec C tbl s e e' w fin → TInv C e 0 → (∀ l, w l → ¬ C l) ∧ TInv C e' 0 := by
+  intro s e e' w fin h
   induction h with
-  | fresh x env P hP =>
-    intro hi
-    exact ⟨fun _ h => h.elim, clean0 hi hP⟩
+  | fresh x env P hP => intro hi; exact ⟨fun _ h => h.elim, clean0 hi hP⟩
   | alias x ys keep env P hP =>
     intro hi
-    refine ⟨fun _ h => h.elim, ?_⟩
-    have hP' : ∀ l, P l → ¬ C l := by
-      intro l hl hc
-      rcases hP l hl with ⟨y, _, hyl⟩ | ⟨_, hxl⟩ | hnc
-      · exact (TInv_zero_elim hi hyl hc).elim
-      · exact (TInv_zero_elim hi hxl hc).elim
-      · exact hnc hc
-    exact clean0 hi hP'
+    refine ⟨fun _ h => h.elim, clean0 hi ?_⟩
+    intro l hl hc
+    rcases hP l hl with ⟨y, _, hyl⟩ | ⟨_, hxl⟩ | hnc
+    · exact TInv_zero_elim hi hyl hc
+    · exact TInv_zero_elim hi hxl hc
+    · exact hnc hc
   | unknown x ys env P W hW hP =>
     intro hi
-    refine ⟨?_, ?_⟩
+    refine ⟨?_, clean0 (afterUnknown_clean hi) ?_⟩
     · intro l hl hc
       obtain ⟨y, _, hyl⟩ := hW l hl
-      exact (TInv_zero_elim hi hyl hc).elim
-    · have hP' : ∀ l, P l → ¬ C l := by
-        intro l hl hc
-        rcases hP l hl with ⟨y, _, hyl⟩ | hnc
-        · exact (TInv_zero_elim hi hyl hc).elim
-        · exact hnc hc
-      exact clean0 hi hP'
-  | write x env W hW =>
-    intro hi
-    exact ⟨fun l hl hc => TInv_zero_elim hi (hW l hl) hc, hi⟩
+      exact TInv_zero_elim hi hyl hc
+    · intro l hl hc
+      rcases hP l hl with ⟨y, _, hyl⟩ | hnc
+      · exact TInv_zero_elim hi hyl hc
+      · exact hnc hc
+  | write x env W hW => intro hi; exact ⟨fun l hl hc => TInv_zero_elim hi (hW l hl) hc, hi⟩
   | call x f args env d envc envc' wc hl hbind _ ih =>
     intro hi
     have hic : TInv C envc 0 := by
@@ -213,50 +219,141 @@ theorem exec_clean (C : Loc → Prop) (tbl : Table) : ∀ (s : Stmt) (e e' : Env
       obtain ⟨ys, _, y, _, hyl⟩ := hbind p l hp
       exact (TInv_zero_elim hi hyl hc).elim
     obtain ⟨hw, hi'⟩ := ih hic
-    refine ⟨hw, ?_⟩
-    have hP' : ∀ l, envc' RET l → ¬ C l := fun l hl hc => TInv_zero_elim hi' hl hc
-    exact clean0 hi hP'
+    exact ⟨hw, clean0 (afterCall_clean hi hi') (fun l hl hc => TInv_zero_elim hi' hl hc)⟩
   | callUnknown x f args env P W hl hW hP =>
     intro hi
-    refine ⟨?_, ?_⟩
+    refine ⟨?_, clean0 (afterUnknown_clean hi) ?_⟩
     · intro l hl' hc
       obtain ⟨y, _, hyl⟩ := hW l hl'
-      exact (TInv_zero_elim hi hyl hc).elim
-    · have hP' : ∀ l, P l → ¬ C l := by
-        intro l hl' hc
-        rcases hP l hl' with ⟨y, _, hyl⟩ | hnc
-        · exact (TInv_zero_elim hi hyl hc).elim
-        · exact hnc hc
-      exact clean0 hi hP'
+      exact TInv_zero_elim hi hyl hc
+    · intro l hl' hc
+      rcases hP l hl' with ⟨y, _, hyl⟩ | hnc
+      · exact TInv_zero_elim hi hyl hc
+      · exact hnc hc
   | seqNil env => intro hi; exact ⟨fun _ h => h.elim, hi⟩
-  | seqCons s ss e1 e2 e3 w1 w2 _ _ ih1 ih2 =>
+  | seqCons s ss e1 e2 e3 w1 w2 fin _ _ ih1 ih2 =>
     intro hi
     obtain ⟨hw1, hi2⟩ := ih1 hi
     obtain ⟨hw2, hi3⟩ := ih2 hi2
     exact ⟨fun l hl => hl.elim (hw1 l) (hw2 l), hi3⟩
-  | brL a b e1 e2 w _ ih => intro hi; exact ih hi
-  | brR a b e1 e2 w _ ih => intro hi; exact ih hi
+  | brL a b e1 e2 w fin _ ih => intro hi; exact ih hi
+  | brR a b e1 e2 w fin _ ih => intro hi; exact ih hi
   | loop0 b env => intro hi; exact ⟨fun _ h => h.elim, hi⟩
-  | loopS b e1 e2 e3 w1 w2 _ _ ih1 ih2 =>
+  | loopS b e1 e2 e3 w1 w2 fin _ _ ih1 ih2 =>
     intro hi
     obtain ⟨hw1, hi2⟩ := ih1 hi
     obtain ⟨hw2, hi3⟩ := ih2 hi2
     exact ⟨fun l hl => hl.elim (hw1 l) (hw2 l), hi3⟩
+  | abort s env => intro hi; exact ⟨fun _ h => h.elim, hi⟩
+  | writeAbort x env W hW => intro hi; exact ⟨fun l hl hc => TInv_zero_elim hi (hW l hl) hc, hi⟩
+  | unknownAbort x ys env W hW =>
+    intro hi
+    refine ⟨?_, afterUnknown_clean hi⟩
+    intro l hl hc
+    obtain ⟨y, _, hyl⟩ := hW l hl
+    exact TInv_zero_elim hi hyl hc
+  | callAbort x f args env d envc envc' wc hl hbind _ ih =>
+    intro hi
+    have hic : TInv C envc 0 := by
+      intro p l hp hc
+      obtain ⟨ys, _, y, _, hyl⟩ := hbind p l hp
+      exact (TInv_zero_elim hi hyl hc).elim
+    obtain ⟨hw, hi'⟩ := ih hic
+    exact ⟨hw, afterCall_clean hi hi'⟩
+  | callUnknownAbort x f args env W hl hW =>
+    intro hi
+    refine ⟨?_, afterUnknown_clean hi⟩
+    intro l hl' hc
+    obtain ⟨y, _, hyl⟩ := hW l hl'
+    exact TInv_zero_elim hi hyl hc
+  | seqAbort s ss e1 e2 w1 _ ih => intro hi; exact ih hi
+  | loopAbort b e1 e2 w1 _ ih => intro hi; exact ih hi
 
 theorem TInv_zero_of_beq {C env} {T : TSet} (h : (T == 0) = true) (hi : TInv C env T) : TInv C env 0 := by
   have : T = 0 := by simpa using h
   rw [this] at hi; exact hi
 
+/-! ### what a call / an operation without a rule does to the caller's frame -/
+
+theorem mem_insertAll {z : Name} : ∀ {ys : List Name} {T : TSet},
+    memN z (insertAll ys T) = true ↔ z ∈ ys ∨ memN z T = true := by
+  intro ys
+  induction ys with
+  | nil => intro T; simp [insertAll]
+  | cons y ys ih =>
+    intro T
+    simp only [insertAll, ih, mem_insertN, List.mem_cons]
+    constructor
+    · rintro (h | h | h)
+      · exact Or.inl (Or.inr h)
+      · exact Or.inl (Or.inl h)
+      · exact Or.inr h
+    · rintro ((h | h) | h)
+      · exact Or.inr (Or.inl h)
+      · exact Or.inl h
+      · exact Or.inr (Or.inr h)
+
+theorem taintBack_mono {Tc : TSet} {y : Name} : ∀ {ps : List Name} {as : List (List Name)} {T : TSet},
+    memN y T = true → memN y (taintBack Tc ps as T) = true := by
+  intro ps
+  induction ps with
+  | nil => intro as T h; simpa [taintBack] using h
+  | cons p ps ih =>
+    intro as T h
+    cases as with
+    | nil => simpa [taintBack] using h
+    | cons a as =>
+      simp only [taintBack]
+      apply ih
+      split
+      · exact mem_insertAll.mpr (Or.inr h)
+      · exact h
+
+theorem taintBack_hit {Tc : TSet} {y p : Name} {ys : List Name} :
+    ∀ {ps : List Name} {as : List (List Name)} {T : TSet}, (p, ys) ∈ ps.zip as → memN p Tc = true → y ∈ ys →
+      memN y (taintBack Tc ps as T) = true := by
+  intro ps
+  induction ps with
+  | nil => intro as T h; simp at h
+  | cons q qs ih =>
+    intro as T h hp hy
+    cases as with
+    | nil => simp at h
+    | cons a as =>
+      simp only [List.zip_cons_cons, List.mem_cons, Prod.mk.injEq] at h
+      simp only [taintBack]
+      rcases h with ⟨rfl, rfl⟩ | h
+      · apply taintBack_mono
+        simp only [hp, if_true]
+        exact mem_insertAll.mpr (Or.inl hy)
+      · exact ih h hp hy
+
+/-- the frame after a call is covered by the entry taint plus the arguments of the parameters tainted at callee exit -/
+theorem TInv_afterCall {C env envc' ps as T Tc} (hi : TInv C env T) (hc' : TInv C envc' Tc) :
+    TInv C (env.afterCall envc' ps as) (taintBack Tc ps as T) := by
+  intro y l hy hc
+  rcases hy with hy | ⟨p, ys, hz, hyy, hp⟩
+  · exact taintBack_mono (hi y l hy hc)
+  · exact taintBack_hit hz (hc' p l hp hc) hyy
+
+/-- an operation without a rule on untainted names leaves the invariant alone -/
+theorem TInv_afterUnknown {C env ys T} (hi : TInv C env T) (hany : ¬ anyIn ys T = true) :
+    TInv C (env.afterUnknown ys) T := by
+  intro y l hy hc
+  rcases hy with hy | ⟨_, z, hz, hzl⟩
+  · exact hi y l hy hc
+  · exact absurd (anyIn_true.mpr ⟨z, hz, hi z l hzl hc⟩) hany
+
 /-! ### soundness of the analysis -/
 
 /-- **Meta-theorem.**  If the analysis accepts `s` from taint set `T` and `T` covers every name through which a
     caller-owned location is reachable at entry, then no execution of `s` — whatever branches it takes, however
-    often its loops run, however deep its calls nest — writes a caller-owned location, and the returned taint set
-    covers the exit environment. -/
-theorem sound (C : Loc → Prop) (tbl : Table) : ∀ (s : Stmt) (e e' : Env) (w : Loc → Prop),
-    Exec C tbl s e e' w → ∀ (n : Nat) (T T' : TSet), analyze tbl n s T = some T' → TInv C e T →
-      (∀ l, w l → ¬ C l) ∧ TInv C e' T' := by
-  intro s e e' w h
+    often its loops run, however deep its calls nest, and **whether it completes or is left by an exception at any
+    point** — writes a caller-owned location; if it completes, the returned taint set covers the exit frame. -/
+theorem sound (C : Loc → Prop) (tbl : Table) : ∀ (s : Stmt) (e e' : Env) (w : Loc → Prop) (fin : Bool),
+    Exec C tbl s e e' w fin → ∀ (n : Nat) (T T' : TSet), analyze tbl n s T = some T' → TInv C e T →
+      (∀ l, w l → ¬ C l) ∧ (fin = true → TInv C e' T') := by
+  intro s e e' w fin h
   induction h with
   | fresh x env P hP =>
     intro n T T' ha hi
@@ -264,13 +361,13 @@ theorem sound (C : Loc → Prop) (tbl : Table) : ∀ (s : Stmt) (e e' : Env) (w 
     | zero => simp [analyze] at ha
     | succ n =>
       simp only [analyze, Option.some.injEq] at ha; subst ha
-      exact ⟨fun _ h => h.elim, TInv_set_clean hi hP⟩
+      exact ⟨fun _ h => h.elim, fun _ => TInv_set_clean hi hP⟩
   | alias x ys keep env P hP =>
     intro n T T' ha hi
     cases n with
     | zero => simp [analyze] at ha
     | succ n =>
-      refine ⟨fun _ h => h.elim, ?_⟩
+      refine ⟨fun _ h => h.elim, fun _ => ?_⟩
       simp only [analyze] at ha
       by_cases hany : anyIn ys T = true
       · simp only [hany, if_true, Option.some.injEq] at ha; subst ha
@@ -311,7 +408,7 @@ theorem sound (C : Loc → Prop) (tbl : Table) : ∀ (s : Stmt) (e e' : Env) (w 
         have hsrc : ∀ l, (∃ y, y ∈ ys ∧ env y l) → ¬ C l := by
           rintro l ⟨y, hy, hyl⟩ hc
           exact hany (anyIn_true.mpr ⟨y, hy, hi y l hyl hc⟩)
-        refine ⟨fun l hl => hsrc l (hW l hl), TInv_set_clean hi ?_⟩
+        refine ⟨fun l hl => hsrc l (hW l hl), fun _ => TInv_set_clean (TInv_afterUnknown hi hany) ?_⟩
         intro l hl hc
         rcases hP l hl with hs | hnc
         · exact hsrc l hs hc
@@ -325,7 +422,7 @@ theorem sound (C : Loc → Prop) (tbl : Table) : ∀ (s : Stmt) (e e' : Env) (w 
       by_cases hx : memN x T = true
       · simp [hx] at ha
       · simp only [hx, Bool.false_eq_true, if_false, Option.some.injEq] at ha; subst ha
-        exact ⟨fun l hl hc => hx (hi x l (hW l hl) hc), hi⟩
+        exact ⟨fun l hl hc => hx (hi x l (hW l hl) hc), fun _ => hi⟩
   | call x f args env d envc envc' wc hl hbind hb ih =>
     intro n T T' ha hi
     cases n with
@@ -335,21 +432,26 @@ theorem sound (C : Loc → Prop) (tbl : Table) : ∀ (s : Stmt) (e e' : Env) (w 
       have hic := TInv_callee hi hbind
       by_cases hemp : (taintedParams T d.params args == 0) = true
       · simp only [hemp, if_true, Option.some.injEq] at ha; subst ha
-        obtain ⟨hw, hi'⟩ := exec_clean C tbl _ _ _ _ hb (TInv_zero_of_beq hemp hic)
-        refine ⟨hw, TInv_set_clean hi ?_⟩
-        exact fun l hl' hc => TInv_zero_elim hi' hl' hc
+        obtain ⟨hw, hi'⟩ := exec_clean C tbl _ _ _ _ _ hb (TInv_zero_of_beq hemp hic)
+        refine ⟨hw, fun _ => TInv_set_clean ?_ (fun l hl' hc => TInv_zero_elim hi' hl' hc)⟩
+        intro y l hy hc
+        rcases hy with hy | ⟨p, _, _, _, hp⟩
+        · exact hi y l hy hc
+        · exact (TInv_zero_elim hi' hp hc).elim
       · simp only [hemp, Bool.false_eq_true, if_false] at ha
         cases hcal : analyze tbl n d.body (taintedParams T d.params args) with
         | none => simp [hcal] at ha
         | some Tc =>
           simp only [hcal] at ha
           obtain ⟨hw, hi'⟩ := ih n _ Tc hcal hic
-          refine ⟨hw, ?_⟩
+          have hi' := hi' rfl
+          refine ⟨hw, fun _ => ?_⟩
+          have hback := TInv_afterCall (ps := d.params) (as := args) hi hi'
           by_cases hret : memN RET Tc = true
           · simp only [hret, if_true, Option.some.injEq] at ha; subst ha
-            exact TInv_set_taint hi
+            exact TInv_set_taint hback
           · simp only [hret, Bool.false_eq_true, if_false, Option.some.injEq] at ha; subst ha
-            apply TInv_set_clean hi
+            apply TInv_set_clean hback
             intro l hl' hc
             exact hret (hi' RET l hl' hc)
   | callUnknown x f args env P W hl hW hP =>
@@ -364,7 +466,7 @@ theorem sound (C : Loc → Prop) (tbl : Table) : ∀ (s : Stmt) (e e' : Env) (w 
         have hsrc : ∀ l, (∃ y, y ∈ args.flatten ∧ env y l) → ¬ C l := by
           rintro l ⟨y, hy, hyl⟩ hc
           exact hany (anyIn_true.mpr ⟨y, hy, hi y l hyl hc⟩)
-        refine ⟨fun l hl' => hsrc l (hW l hl'), TInv_set_clean hi ?_⟩
+        refine ⟨fun l hl' => hsrc l (hW l hl'), fun _ => TInv_set_clean (TInv_afterUnknown hi hany) ?_⟩
         intro l hl' hc
         rcases hP l hl' with hs | hnc
         · exact hsrc l hs hc
@@ -375,8 +477,8 @@ theorem sound (C : Loc → Prop) (tbl : Table) : ∀ (s : Stmt) (e e' : Env) (w 
     | zero => simp [analyze] at ha
     | succ n =>
       simp only [analyze, Option.some.injEq] at ha; subst ha
-      exact ⟨fun _ h => h.elim, hi⟩
-  | seqCons s ss e1 e2 e3 w1 w2 _ _ ih1 ih2 =>
+      exact ⟨fun _ h => h.elim, fun _ => hi⟩
+  | seqCons s ss e1 e2 e3 w1 w2 fin _ _ ih1 ih2 =>
     intro n T T' ha hi
     cases n with
     | zero => simp [analyze] at ha
@@ -387,9 +489,9 @@ theorem sound (C : Loc → Prop) (tbl : Table) : ∀ (s : Stmt) (e e' : Env) (w 
       | some t =>
         simp only [h1] at ha
         obtain ⟨hw1, hi2⟩ := ih1 n T t h1 hi
-        obtain ⟨hw2, hi3⟩ := ih2 n t T' ha hi2
+        obtain ⟨hw2, hi3⟩ := ih2 n t T' ha (hi2 rfl)
         exact ⟨fun l hl => hl.elim (hw1 l) (hw2 l), hi3⟩
-  | brL a b e1 e2 w _ ih =>
+  | brL a b e1 e2 w fin _ ih =>
     intro n T T' ha hi
     cases n with
     | zero => simp [analyze] at ha
@@ -403,8 +505,8 @@ theorem sound (C : Loc → Prop) (tbl : Table) : ∀ (s : Stmt) (e e' : Env) (w 
         | some t2 =>
           simp only [h1, h2, Option.some.injEq] at ha; subst ha
           obtain ⟨hw, hi'⟩ := ih n T t1 h1 hi
-          exact ⟨hw, fun x l hx hc => mem_unionN.mpr (Or.inl (hi' x l hx hc))⟩
-  | brR a b e1 e2 w _ ih =>
+          exact ⟨hw, fun hf x l hx hc => mem_unionN.mpr (Or.inl (hi' hf x l hx hc))⟩
+  | brR a b e1 e2 w fin _ ih =>
     intro n T T' ha hi
     cases n with
     | zero => simp [analyze] at ha
@@ -418,7 +520,7 @@ theorem sound (C : Loc → Prop) (tbl : Table) : ∀ (s : Stmt) (e e' : Env) (w 
         | some t2 =>
           simp only [h1, h2, Option.some.injEq] at ha; subst ha
           obtain ⟨hw, hi'⟩ := ih n T t2 h2 hi
-          exact ⟨hw, fun x l hx hc => mem_unionN.mpr (Or.inr (hi' x l hx hc))⟩
+          exact ⟨hw, fun hf x l hx hc => mem_unionN.mpr (Or.inr (hi' hf x l hx hc))⟩
   | loop0 b env =>
     intro n T T' ha hi
     cases n with
@@ -426,8 +528,8 @@ theorem sound (C : Loc → Prop) (tbl : Table) : ∀ (s : Stmt) (e e' : Env) (w 
     | succ n =>
       simp only [analyze] at ha
       obtain ⟨hsub, _⟩ := loopFix_spec _ _ _ ha
-      exact ⟨fun _ h => h.elim, fun x l hx hc => hsub x (hi x l hx hc)⟩
-  | loopS b e1 e2 e3 w1 w2 _ _ ih1 ih2 =>
+      exact ⟨fun _ h => h.elim, fun _ x l hx hc => hsub x (hi x l hx hc)⟩
+  | loopS b e1 e2 e3 w1 w2 fin _ _ ih1 ih2 =>
     intro n T T' ha hi
     cases n with
     | zero => simp [analyze] at ha
@@ -436,49 +538,115 @@ theorem sound (C : Loc → Prop) (tbl : Table) : ∀ (s : Stmt) (e e' : Env) (w 
       obtain ⟨hsub, t', hstep, hsub'⟩ := loopFix_spec _ _ _ ha
       have hiInv : TInv C e1 T' := fun x l hx hc => hsub x (hi x l hx hc)
       obtain ⟨hw1, hi2⟩ := ih1 n _ t' hstep hiInv
-      have hi2' := TInv_mono hsub' hi2
+      have hi2' := TInv_mono hsub' (hi2 rfl)
       -- analysing the loop again from the invariant returns the invariant
       have hloop : analyze tbl (n + 1) (.loop b) T' = some T' := by
         simp only [analyze]; exact loopFix_fix hstep hsub' 15
       obtain ⟨hw2, hi3⟩ := ih2 (n + 1) _ _ hloop hi2'
       exact ⟨fun l hl => hl.elim (hw1 l) (hw2 l), hi3⟩
+  | abort s env => intro n T T' _ _; exact ⟨fun _ h => h.elim, fun h => by cases h⟩
+  | writeAbort x env W hW =>
+    intro n T T' ha hi
+    cases n with
+    | zero => simp [analyze] at ha
+    | succ n =>
+      simp only [analyze] at ha
+      by_cases hx : memN x T = true
+      · simp [hx] at ha
+      · exact ⟨fun l hl hc => hx (hi x l (hW l hl) hc), fun h => by cases h⟩
+  | unknownAbort x ys env W hW =>
+    intro n T T' ha hi
+    cases n with
+    | zero => simp [analyze] at ha
+    | succ n =>
+      simp only [analyze] at ha
+      by_cases hany : anyIn ys T = true
+      · simp [hany] at ha
+      · refine ⟨?_, fun h => by cases h⟩
+        intro l hl hc
+        obtain ⟨y, hy, hyl⟩ := hW l hl
+        exact hany (anyIn_true.mpr ⟨y, hy, hi y l hyl hc⟩)
+  | callAbort x f args env d envc envc' wc hl hbind hb ih =>
+    intro n T T' ha hi
+    cases n with
+    | zero => simp [analyze] at ha
+    | succ n =>
+      simp only [analyze, hl] at ha
+      have hic := TInv_callee hi hbind
+      refine ⟨?_, fun h => by cases h⟩
+      by_cases hemp : (taintedParams T d.params args == 0) = true
+      · exact (exec_clean C tbl _ _ _ _ _ hb (TInv_zero_of_beq hemp hic)).1
+      · simp only [hemp, Bool.false_eq_true, if_false] at ha
+        cases hcal : analyze tbl n d.body (taintedParams T d.params args) with
+        | none => simp [hcal] at ha
+        | some Tc => exact (ih n _ Tc hcal hic).1
+  | callUnknownAbort x f args env W hl hW =>
+    intro n T T' ha hi
+    cases n with
+    | zero => simp [analyze] at ha
+    | succ n =>
+      simp only [analyze, hl] at ha
+      by_cases hany : anyIn args.flatten T = true
+      · simp [hany] at ha
+      · refine ⟨?_, fun h => by cases h⟩
+        intro l hl' hc
+        obtain ⟨y, hy, hyl⟩ := hW l hl'
+        exact hany (anyIn_true.mpr ⟨y, hy, hi y l hyl hc⟩)
+  | seqAbort s ss e1 e2 w1 _ ih =>
+    intro n T T' ha hi
+    cases n with
+    | zero => simp [analyze] at ha
+    | succ n =>
+      simp only [analyze] at ha
+      cases h1 : analyze tbl n s T with
+      | none => simp [h1] at ha
+      | some t => exact ⟨(ih n T t h1 hi).1, fun h => by cases h⟩
+  | loopAbort b e1 e2 w1 _ ih =>
+    intro n T T' ha hi
+    cases n with
+    | zero => simp [analyze] at ha
+    | succ n =>
+      simp only [analyze] at ha
+      obtain ⟨hsub, t', hstep, _⟩ := loopFix_spec _ _ _ ha
+      have hiInv : TInv C e1 T' := fun x l hx hc => hsub x (hi x l hx hc)
+      exact ⟨(ih n _ t' hstep hiInv).1, fun h => by cases h⟩
 
 /-- **C13 for one function.**  `safe tbl fuel f = true` (the generated obligation) ⇒ for every set `C` of
     caller-owned locations and every entry frame in which those are reachable only through `f`'s parameters,
     no execution of `f`'s body writes a location of `C`. -/
 theorem safe_sound {tbl : Table} {fuel f : Nat} (hs : safe tbl fuel f = true) :
     ∃ d, lookup tbl f = some d ∧
-      ∀ (C : Loc → Prop) (e e' : Env) (w : Loc → Prop), (∀ x l, e x l → C l → x ∈ d.params) →
-        Exec C tbl d.body e e' w → ∀ l, w l → ¬ C l := by
+      ∀ (C : Loc → Prop) (e e' : Env) (w : Loc → Prop) (fin : Bool), (∀ x l, e x l → C l → x ∈ d.params) →
+        Exec C tbl d.body e e' w fin → ∀ l, w l → ¬ C l := by
   unfold safe at hs
   cases hl : lookup tbl f with
   | none => simp [hl] at hs
   | some d =>
     simp only [hl] at hs
     refine ⟨d, rfl, ?_⟩
-    intro C e e' w hi hex
+    intro C e e' w fin hi hex
     cases ha : analyze tbl fuel d.body (maskOf d.params) with
     | none => simp [ha] at hs
     | some T' =>
-      exact (sound C tbl _ _ _ _ hex fuel _ T' ha (fun x l hx hc => mem_maskOf.mpr (hi x l hx hc))).1
+      exact (sound C tbl _ _ _ _ _ hex fuel _ T' ha (fun x l hx hc => mem_maskOf.mpr (hi x l hx hc))).1
 
 /-- the `copy=False` variants: whatever is reachable only through the parameters *not* listed in `k` is never
     written (the listed parameter is the array the caller asked to be modified in place) -/
 theorem safeExcept_sound {tbl : Table} {fuel f : Nat} {k : List Nat} (hs : safeExcept tbl fuel f k = true) :
     ∃ d, lookup tbl f = some d ∧
-      ∀ (C : Loc → Prop) (e e' : Env) (w : Loc → Prop), (∀ x l, e x l → C l → x ∈ dropAt k 0 d.params) →
-        Exec C tbl d.body e e' w → ∀ l, w l → ¬ C l := by
+      ∀ (C : Loc → Prop) (e e' : Env) (w : Loc → Prop) (fin : Bool), (∀ x l, e x l → C l → x ∈ dropAt k 0 d.params) →
+        Exec C tbl d.body e e' w fin → ∀ l, w l → ¬ C l := by
   unfold safeExcept at hs
   cases hl : lookup tbl f with
   | none => simp [hl] at hs
   | some d =>
     simp only [hl] at hs
     refine ⟨d, rfl, ?_⟩
-    intro C e e' w hi hex
+    intro C e e' w fin hi hex
     cases ha : analyze tbl fuel d.body (maskOf (dropAt k 0 d.params)) with
     | none => simp [ha] at hs
     | some T' =>
-      exact (sound C tbl _ _ _ _ hex fuel _ T' ha (fun x l hx hc => mem_maskOf.mpr (hi x l hx hc))).1
+      exact (sound C tbl _ _ _ _ _ hex fuel _ T' ha (fun x l hx hc => mem_maskOf.mpr (hi x l hx hc))).1
 
 /-! ### non-vacuity -/
 
@@ -503,11 +671,27 @@ example : safe exTable 100 5 = false := by decide         -- D12 through a view 
 example : safe [(1, ⟨[1], .loop (.seq [.write 2, .alias 2 [1] false])⟩)] 100 1 = false := by decide  -- second pass
 example : safe [(1, ⟨[1], .unknown 2 [1]⟩)] 100 1 = false := by decide
 
+/-- a callee that stores one argument into a container it was handed (7: `def put(box, W): box.append(W)`, names
+    1 = box, 2 = box.c, 3 = W, 4 = W.c) makes the caller's container reach the caller-owned array: the later write
+    through the container's contents (8: `box = []; put(box, W); box[0][0, 0] = 5`) is rejected … -/
+def exTable2 : Table :=
+  [(7, ⟨[1, 2, 3, 4], .seq [.write 1, .alias 2 [3, 4] true]⟩),
+   (8, ⟨[1, 2], .seq [.fresh 3, .fresh 4, .call 5 7 [[3], [4], [1], [2]], .write 3, .write 4]⟩),
+   (9, ⟨[1, 2], .seq [.fresh 3, .fresh 4, .call 5 7 [[3], [4], [1], [2]], .write 3]⟩)]
+example : safe exTable2 100 8 = false := by decide
+/-- … while writing only the (local) container object itself is accepted -/
+example : safe exTable2 100 9 = true := by decide
+
 /-- the semantics does produce the offending execution for the D12 pattern: location 7 is caller-owned, the
     parameter reaches it, and the write hits it -/
 example : Exec (fun l => l = 7) exTable (.seq [.write 1]) (fun x l => x = 1 ∧ l = 7) (fun x l => x = 1 ∧ l = 7)
-    (fun l => l = 7 ∨ False) :=
-  .seqCons _ _ _ _ _ _ _ (.write 1 _ (fun l => l = 7) (fun _ h => ⟨rfl, h⟩)) (.seqNil _)
+    (fun l => l = 7 ∨ False) true :=
+  .seqCons _ _ _ _ _ _ _ _ (.write 1 _ (fun l => l = 7) (fun _ h => ⟨rfl, h⟩)) (.seqNil _)
+
+/-- … and also the execution in which the in-place operation raises after having written (the "or raises" clause) -/
+example : Exec (fun l => l = 7) exTable (.seq [.write 1, .fresh 2]) (fun x l => x = 1 ∧ l = 7) (fun x l => x = 1 ∧ l = 7)
+    (fun l => l = 7) false :=
+  .seqAbort _ _ _ _ _ (.writeAbort 1 _ (fun l => l = 7) (fun _ h => ⟨rfl, h⟩))
 
 /-- and the hypothesis `TInv` of `safe_sound` is satisfiable by that frame -/
 example : ∀ x l, (fun x l => x = 1 ∧ l = 7) x l → (fun l => l = 7) l → x ∈ [1] := fun _ _ h _ => by simp [h.1]
